@@ -2,9 +2,383 @@ package main
 
 import (
 	"encoding/json"
+	"fmt"
+	"math/rand/v2"
+	"path/filepath"
+	"regexp"
+	"sort"
+	"strings"
+	"time"
 
+	"verifharness/proc"
 	"verifharness/vf"
 )
 
-func blackbox(c *vf.Ctx)                              {}
-func replayBlackbox(c *vf.Ctx, w json.RawMessage)     {}
+// Black-box part: a real ts-server, the same kind of predicates as
+// SHOW SERIES FROM m WHERE ... and SELECT v FROM m WHERE ... GROUP BY *, plus the
+// SHOW TAG KEYS / SHOW TAG VALUES listings. Every series carries a unique plain tag
+// sid=sNNNN so that answers can be mapped back without relying on how hostile keys and
+// values are escaped in the output.
+
+var bbMeasurements = []string{"m", "cpu,load", "a b", "é", "m.1", "M", "x=y"}
+var bbKeys = []string{"host", "h", "region", "a,b", "k=v", "k v", "ключ", "Host", "ho"}
+var bbValues = []string{
+	"web", "web-1", "web-12", "web-2", "we", "w", "db", "d", "db-1", "xwebx", "WEB",
+	"a,b", "a=b", "a b", ",", "=", "a,b=c d", "\x01", "\x02\x02", "a\x01", "1",
+	"値", "é", "日本語", "😀", "web|db", "a.b", "axb", "a*b", "(", "[x]", "^web$", "$", "'", "\"", "a/b", "+", "?",
+	"foo", "foobar", "xfoo", "ab", "xaybz", "a", "aa",
+}
+
+type bbCase struct {
+	Series []Series `json:"series"` // every series has the tag sid
+	M      string   `json:"m"`
+	Path   string   `json:"path"` // show | select | tagkeys | tagvalues
+	Query  string   `json:"query"`
+	Want   []string `json:"want"`
+}
+
+func bbUniverse(r *rand.Rand) []Series {
+	var out []Series
+	ms := shuffled(r, bbMeasurements)[:3]
+	ms[0] = "m"
+	n := 0
+	for _, m := range ms {
+		nk := 2 + r.IntN(3)
+		keys := shuffled(r, bbKeys)[:nk]
+		pools := make([][]string, nk)
+		for i := range keys {
+			pools[i] = shuffled(r, bbValues)[:3+r.IntN(8)]
+		}
+		for j := 12 + r.IntN(25); j > 0; j-- {
+			s := Series{M: m}
+			for i, k := range keys {
+				if r.IntN(10) < 7 {
+					s.Tags = append(s.Tags, Tag{k, pick(r, pools[i])})
+				}
+			}
+			s.Tags = append(s.Tags, Tag{"sid", fmt.Sprintf("s%04d", n)})
+			n++
+			sort.Slice(s.Tags, func(a, b int) bool { return s.Tags[a].K < s.Tags[b].K })
+			out = append(out, s)
+		}
+	}
+	return out
+}
+
+func sidOf(s *Series) string { return s.Get("sid") }
+
+var sidRe = regexp.MustCompile(`(?:^|,)sid=(s\d{4})(?:,|$)`)
+
+func bbStart(c *vf.Ctx, dir string) (*proc.Server, error) {
+	bin, err := proc.Build(c.RepoDir, c.Scratch, "ts-server", false)
+	if err != nil {
+		return nil, err
+	}
+	s := proc.New(proc.Config{Bin: bin, Dir: dir, IP: proc.IP(10, 0)})
+	if err := s.Start(); err != nil {
+		return nil, err
+	}
+	if err := s.WaitReady(120 * time.Second); err != nil {
+		s.Kill()
+		return nil, err
+	}
+	if _, err := s.Query("", "CREATE DATABASE db0", nil); err != nil {
+		s.Kill()
+		return nil, err
+	}
+	return s, nil
+}
+
+func bbWrite(s *proc.Server, u []Series) error {
+	var b strings.Builder
+	for i := range u {
+		b.WriteString(lpEscape(u[i].M, true))
+		for _, t := range u[i].Tags {
+			b.WriteString("," + lpEscape(t.K, false) + "=" + lpEscape(t.V, false))
+		}
+		b.WriteString(" v=1i 1000000000\n")
+	}
+	w := s.Write("db0", b.String(), nil)
+	if !w.Acked() {
+		return fmt.Errorf("write not acknowledged: %d %s %v", w.Status, w.Body, w.Err)
+	}
+	return nil
+}
+
+func bbShowSids(s *proc.Server, q string) ([]string, error) {
+	r, err := s.Query("db0", q, nil)
+	if err != nil {
+		return nil, err
+	}
+	var out []string
+	for _, res := range r.Results {
+		for _, se := range res.Series {
+			for _, row := range se.Values {
+				if len(row) == 0 {
+					continue
+				}
+				m := sidRe.FindStringSubmatch(fmt.Sprint(row[0]))
+				if m == nil {
+					return nil, fmt.Errorf("series key without sid: %q", row[0])
+				}
+				out = append(out, m[1])
+			}
+		}
+	}
+	sort.Strings(out)
+	return out, nil
+}
+
+func bbSelectSids(s *proc.Server, q string) ([]string, error) {
+	r, err := s.Query("db0", q, nil)
+	if err != nil {
+		return nil, err
+	}
+	var out []string
+	for _, res := range r.Results {
+		for _, se := range res.Series {
+			sid, ok := se.Tags["sid"]
+			if !ok {
+				return nil, fmt.Errorf("result series without sid tag: %v", se.Tags)
+			}
+			out = append(out, sid)
+		}
+	}
+	sort.Strings(out)
+	return out, nil
+}
+
+func bbColumn(s *proc.Server, q string, col int) ([]string, error) {
+	r, err := s.Query("db0", q, nil)
+	if err != nil {
+		return nil, err
+	}
+	var out []string
+	for _, res := range r.Results {
+		for _, se := range res.Series {
+			for _, row := range se.Values {
+				if len(row) > col {
+					out = append(out, fmt.Sprint(row[col]))
+				}
+			}
+		}
+	}
+	sort.Strings(out)
+	return out, nil
+}
+
+// bbWaitVisible: visibility rule — completeness is judged only once every written
+// series has been listed by an unconditional SHOW SERIES.
+func bbWaitVisible(s *proc.Server, n int) bool {
+	for i := 0; i < 300; i++ {
+		got, err := bbShowSids(s, "SHOW SERIES")
+		if err == nil && len(got) == n {
+			return true
+		}
+		time.Sleep(100 * time.Millisecond)
+	}
+	return false
+}
+
+func bbRun(s *proc.Server, bc *bbCase) ([]string, error) {
+	switch bc.Path {
+	case "show":
+		return bbShowSids(s, bc.Query)
+	case "select":
+		return bbSelectSids(s, bc.Query)
+	case "tagkeys":
+		return bbColumn(s, bc.Query, 0)
+	default:
+		return bbColumn(s, bc.Query, 1)
+	}
+}
+
+func blackbox(c *vf.Ctx) {
+	rng := c.Rand(77)
+	u := bbUniverse(rng)
+	s, err := bbStart(c, filepath.Join(c.Scratch, "bb"))
+	if err != nil {
+		c.Inconclusive("blackbox-server-not-started", 1)
+		fmt.Printf("INCONCLUSIVE property=C10 black-box server: %v\n", err)
+		return
+	}
+	defer s.Kill()
+	if err := bbWrite(s, u); err != nil {
+		c.Inconclusive("blackbox-write-refused", 1)
+		fmt.Printf("INCONCLUSIVE property=C10 black-box write: %v\n", err)
+		return
+	}
+	if !bbWaitVisible(s, len(u)) {
+		c.Inconclusive("blackbox-series-never-all-visible", 1)
+		return
+	}
+	nPred := c.Pick(40, 300)
+	vs := views(u, nil)
+	report := func(bc *bbCase, got []string, err error, sig, what string) {
+		c.Violation(sig, what, map[string]any{"case": bc, "got": clip(got, 40), "error": fmt.Sprint(err)})
+	}
+	for _, v := range vs {
+		from := renderKey(v.M)
+		// listings
+		wantKeys := append([]string(nil), v.Keys...)
+		bc := &bbCase{Series: u, M: v.M, Path: "tagkeys", Query: "SHOW TAG KEYS FROM " + from, Want: sortedCopy(wantKeys)}
+		got, err := bbRun(s, bc)
+		c.Eval(1)
+		c.Count("blackbox-show-tag-keys", 1)
+		if err != nil || !multisetEq(bc.Want, got) {
+			miss, extra := listDiff(bc.Want, got)
+			report(bc, got, err, "blackbox:tagkeys:"+valueClassOfAny(append(miss, extra...)), fmt.Sprintf("%s: got %q, written %q (err %v)", bc.Query, got, bc.Want, err))
+		}
+		for _, k := range v.Keys {
+			bc := &bbCase{Series: u, M: v.M, Path: "tagvalues", Query: "SHOW TAG VALUES FROM " + from + " WITH KEY = " + renderKeyQuoted(k), Want: sortedCopy(v.Vals[k])}
+			got, err := bbRun(s, bc)
+			c.Eval(1)
+			c.Count("blackbox-show-tag-values", 1)
+			if err != nil || !multisetEq(bc.Want, got) {
+				miss, extra := listDiff(bc.Want, got)
+				report(bc, got, err, "blackbox:tagvalues:"+valueClassOfAny(append(miss, extra...)), fmt.Sprintf("%s: got %q, written %q (err %v)", bc.Query, clip(got, 10), clip(bc.Want, 10), err))
+			}
+		}
+		// predicates
+		per := max(6, nPred/len(vs))
+		nLeaves := max(3, per/2)
+		leaves := make([]Leaf, nLeaves)
+		sets := make([]bitset, nLeaves)
+		var keysNoSid []string
+		for _, k := range v.Keys {
+			if k != "sid" {
+				keysNoSid = append(keysNoSid, k)
+			}
+		}
+		vv := *v
+		vv.Keys = keysNoSid
+		for i := range leaves {
+			for {
+				leaves[i] = genLeaf(rng, &vv, nil)
+				if bbExpressible(&leaves[i]) {
+					break
+				}
+			}
+			sets[i] = evalLeaf(u, v, &leaves[i])
+		}
+		ask := func(tree *Pred, kind string) {
+			want := evalTree(tree, sets)
+			var wantSids []string
+			for _, p := range want.list() {
+				wantSids = append(wantSids, sidOf(&u[v.Series[p]]))
+			}
+			sort.Strings(wantSids)
+			text := render(tree, leaves, func(i int) string { return renderLeaf(&leaves[i]) })
+			absentKey := false
+			for _, li := range tree.Leaves(nil) {
+				if len(v.Vals[leaves[li].Key]) == 0 {
+					absentKey = true
+				}
+			}
+			for _, path := range searchPaths {
+				if path == "select" && absentKey {
+					// a key that is no tag of the measurement is a field to SELECT
+					continue
+				}
+				bc := &bbCase{Series: u, M: v.M, Path: path, Want: wantSids}
+				if path == "show" {
+					bc.Query = "SHOW SERIES FROM " + from + " WHERE " + text
+				} else {
+					bc.Query = "SELECT v FROM " + from + " WHERE " + text + " GROUP BY *"
+				}
+				c.LogInput(bc.Query)
+				got, err := bbRun(s, bc)
+				c.Eval(1)
+				c.Count("blackbox-"+path+"-"+kind, 1)
+				if len(wantSids) > 0 && len(wantSids) < len(v.Series) && kind == "tree" {
+					c.Nontrivial("bb:" + hashOf(bc.Query))
+				}
+				if err == nil && multisetEq(wantSids, got) {
+					c.Count("blackbox-agree", 1)
+					continue
+				}
+				sig := "blackbox:" + path + ":" + kind
+				if kind == "leaf" {
+					l := &leaves[tree.Leaf]
+					if l.IsRegex() {
+						sig += ":regex:" + regexShape(l.Val)
+					} else {
+						sig += ":" + l.Op + ":" + valueClass(l.Val) + "-value"
+					}
+				}
+				if err != nil {
+					sig += ":error"
+				}
+				report(bc, got, err, sig, fmt.Sprintf("%s: %d series, brute force %d (err %v)", bc.Query, len(got), len(wantSids), err))
+			}
+		}
+		for i := range leaves {
+			ask(&Pred{Kind: "leaf", Leaf: i}, "leaf")
+		}
+		for t := per - nLeaves; t > 0; t-- {
+			tree := genTree(rng, nLeaves, 1+rng.IntN(3))
+			if tree.Kind == "leaf" {
+				continue
+			}
+			ask(tree, "tree")
+		}
+	}
+	c.Count("blackbox-series-written", int64(len(u)))
+}
+
+// bbExpressible: the literal must survive the query text (no NUL, no backslash, valid UTF-8)
+func bbExpressible(l *Leaf) bool {
+	for _, s := range []string{l.Key, l.Val} {
+		if strings.ContainsAny(s, "\x00\\\n") || !isValidUTF8(s) {
+			return false
+		}
+	}
+	p := &Pred{Kind: "leaf", Leaf: 0}
+	_, _, ph, err := buildExpr(p, []Leaf{*l})
+	return err == nil && !ph
+}
+
+func isValidUTF8(s string) bool {
+	for _, r := range s {
+		if r == 0xfffd {
+			return false
+		}
+	}
+	return true
+}
+
+func renderKeyQuoted(k string) string {
+	r := strings.NewReplacer(`\`, `\\`, `"`, `\"`, "\n", `\n`)
+	return `"` + r.Replace(k) + `"`
+}
+
+func replayBlackbox(c *vf.Ctx, w json.RawMessage) {
+	var wit struct {
+		Case *bbCase `json:"case"`
+	}
+	if err := json.Unmarshal(w, &wit); err != nil || wit.Case == nil {
+		c.Broken("black-box witness unreadable: %v", err)
+		return
+	}
+	bc := wit.Case
+	s, err := bbStart(c, filepath.Join(c.Scratch, "bb"))
+	if err != nil {
+		c.Broken("black-box server: %v", err)
+		return
+	}
+	defer s.Kill()
+	if err := bbWrite(s, bc.Series); err != nil {
+		c.Broken("black-box write: %v", err)
+		return
+	}
+	if !bbWaitVisible(s, len(bc.Series)) {
+		c.Inconclusive("blackbox-series-never-all-visible", 1)
+		return
+	}
+	got, err := bbRun(s, bc)
+	c.Eval(1)
+	fmt.Printf("REPLAY: %s\n  got  %q (err %v)\n  want %q\n", bc.Query, got, err, bc.Want)
+	if err != nil || !multisetEq(sortedCopy(bc.Want), got) {
+		c.Violation("blackbox:replay-still-differs", bc.Query, map[string]any{"case": bc, "got": got})
+	}
+}
